@@ -18,6 +18,7 @@ Inductive aop :=
 (* the accumulation context (x_u, x_t, x_y, x_p) restricted to what the tagged programs touch *)
 Record ctx := {
   c_store : list N;            (* tags of storage keys present, ascending *)
+  c_raw : list N;              (* tags of storage entries still held as raw (unattributed) key-values, in list order *)
   c_transfers : list N;        (* transfer tags, in order of emission *)
   c_yield : option N;
   c_provided : list N;         (* provided blob tags, ascending *)
@@ -37,21 +38,21 @@ Definition new_cost : N := 234.   (* threshold of an account with 2 items and 81
 
 Definition apply_op (c : ctx) (o : aop) : ctx :=
   match o with
-  | OWrite k => {| c_store := insert_tag k (c_store c); c_transfers := c_transfers c; c_yield := c_yield c;
+  | OWrite k => {| c_store := insert_tag k (c_store c); c_raw := remove_tag k (c_raw c); c_transfers := c_transfers c; c_yield := c_yield c;
                    c_provided := c_provided c; c_code := c_code c; c_created := c_created c; c_spent := c_spent c |}
-  | ODelete k => {| c_store := remove_tag k (c_store c); c_transfers := c_transfers c; c_yield := c_yield c;
+  | ODelete k => {| c_store := remove_tag k (c_store c); c_raw := remove_tag k (c_raw c); c_transfers := c_transfers c; c_yield := c_yield c;
                     c_provided := c_provided c; c_code := c_code c; c_created := c_created c; c_spent := c_spent c |}
-  | OTransfer k => {| c_store := c_store c; c_transfers := c_transfers c ++ [k]; c_yield := c_yield c;
+  | OTransfer k => {| c_store := c_store c; c_raw := c_raw c; c_transfers := c_transfers c ++ [k]; c_yield := c_yield c;
                       c_provided := c_provided c; c_code := c_code c; c_created := c_created c;
                       c_spent := c_spent c + 100 + k |}
-  | OYield k => {| c_store := c_store c; c_transfers := c_transfers c; c_yield := Some k;
+  | OYield k => {| c_store := c_store c; c_raw := c_raw c; c_transfers := c_transfers c; c_yield := Some k;
                    c_provided := c_provided c; c_code := c_code c; c_created := c_created c; c_spent := c_spent c |}
-  | OProvide k => {| c_store := c_store c; c_transfers := c_transfers c; c_yield := c_yield c;
+  | OProvide k => {| c_store := c_store c; c_raw := c_raw c; c_transfers := c_transfers c; c_yield := c_yield c;
                      c_provided := insert_tag k (c_provided c); c_code := c_code c; c_created := c_created c;
                      c_spent := c_spent c |}
-  | OUpgrade k => {| c_store := c_store c; c_transfers := c_transfers c; c_yield := c_yield c;
+  | OUpgrade k => {| c_store := c_store c; c_raw := c_raw c; c_transfers := c_transfers c; c_yield := c_yield c;
                      c_provided := c_provided c; c_code := k; c_created := c_created c; c_spent := c_spent c |}
-  | ONew => {| c_store := c_store c; c_transfers := c_transfers c; c_yield := c_yield c;
+  | ONew => {| c_store := c_store c; c_raw := c_raw c; c_transfers := c_transfers c; c_yield := c_yield c;
                c_provided := c_provided c; c_code := c_code c; c_created := c_created c + 1;
                c_spent := c_spent c + new_cost |}
   | OCheckpoint => c
@@ -74,7 +75,7 @@ Inductive ending :=
 | EOutOfGas.
 
 Definition with_yield (c : ctx) (k : N) : ctx :=
-  {| c_store := c_store c; c_transfers := c_transfers c; c_yield := Some k; c_provided := c_provided c;
+  {| c_store := c_store c; c_raw := c_raw c; c_transfers := c_transfers c; c_yield := Some k; c_provided := c_provided c;
      c_code := c_code c; c_created := c_created c; c_spent := c_spent c |}.
 
 (* B.13 collapse *)
@@ -100,4 +101,4 @@ Fixpoint committed (ops : list aop) : list aop :=
   end.
 
 Definition init_ctx : ctx :=
-  {| c_store := []; c_transfers := []; c_yield := None; c_provided := []; c_code := 0; c_created := 0; c_spent := 0 |}.
+  {| c_store := []; c_raw := [20; 21; 22]; c_transfers := []; c_yield := None; c_provided := []; c_code := 0; c_created := 0; c_spent := 0 |}.
